@@ -17,7 +17,8 @@ RULE = ("hub: one line = history length N + a history of ops run by one goroutin
         "that closes/writer steps happen while ops are queued. Families: mixed, mixed+gate, queue-boundary (exactly full, never waiting), "
         "slow listener (open finding), history longer than the queue. distinct = distinct input line; non-trivial = at least one listener "
         "joined and one event dispatched.")
-TRUSTED = ["Go channels/select/sync.Once behave as modelled (FIFO bounded queue; a send on a full channel waits; select picks any ready branch)",
+TRUSTED = ["a closed listener's queue is read by nobody (the harness looks at what was buffered only at the end of the case)",
+           "Go channels/select/sync.Once behave as modelled (FIFO bounded queue; a send on a full channel waits; select picks any ready branch)",
            "the harness plays the socket reader/writer through pkg/rest/verif_export.go (Take = the writer's receive, Close = what reader/writer call)",
            "timing: 'blocked' is judged by a Sync that does not return within 1 s and again within 2 s more"]
 ASSUMPTIONS = ["message ids are unique per mailbox among the retained history for the declarative reading of history_replay (NoDup hypothesis); "
